@@ -21,7 +21,8 @@ def build_impl(sc0, sid):
     qual = sc["qual"]
     # where the interface lives
     ipkg, ipath, iname = {"none": ("u", "m/u", "u"), "declared": ("d", "m/d", "d"), "alias": ("d", "m/d", "d"),
-                          "diffname": ("bar", "m/go-bar", "bar"), "selfname": ("d", "m/d", "d"), "unbound": ("d", "m/d", "d")}[qual]
+                          "diffname": ("bar", "m/go-bar", "bar"), "selfname": ("d", "m/d", "d"), "unbound": ("d", "m/d", "d"),
+                          "lastelem": ("bar", "m/gobar", "bar")}[qual]
     idecl = []
     if sc["ikind"] == "iface":
         idecl = ["// I is the contract.", "type I interface {", "\tM(%s) %s" % (param(sc["pI"], sc["vI"], ipkg), render(sc["rI"], ipkg))]
@@ -42,13 +43,15 @@ def build_impl(sc0, sid):
     u = ["package u", ""]
     imports = []
     uses_d = any(re.search(r"\bd\.", sc[k]) for k in ("pT", "rT")) or (ipkg == "u" and any(re.search(r"\bd\.", sc[k]) for k in ("pI", "rI")))
-    q = {"none": "", "declared": "d.", "alias": "x.", "diffname": "bar.", "selfname": "u.", "unbound": "nope."}[qual]
+    q = {"none": "", "declared": "d.", "alias": "x.", "diffname": "bar.", "selfname": "u.", "unbound": "nope.", "lastelem": "gobar."}[qual]
     if qual in ("declared", "unbound") or (uses_d and qual != "alias"):
         imports.append('"m/d"')
     if qual == "alias":
         imports.append('x "m/d"')
     if qual == "diffname":
         imports.append('"m/go-bar"')
+    if qual == "lastelem":
+        imports.append('"m/gobar"')
     if qual == "selfname":
         imports.append('"m/e"')
     if imports:
@@ -57,7 +60,7 @@ def build_impl(sc0, sid):
         u += ["var _ d.N", ""]
     if qual == "alias":
         u += ["var _ x.N", ""]
-    if qual == "diffname":
+    if qual in ("diffname", "lastelem"):
         u += ["var _ bar.N", ""]
     if qual == "selfname":
         u += ["var _ e.E", ""]
@@ -91,6 +94,8 @@ def build_impl(sc0, sid):
     pkgs = [{"path": "m/d", "name": "d", "files": [{"name": "d/d.go", "src": "\n".join(d) + "\n"}]}]
     if qual == "diffname":
         pkgs.append({"path": "m/go-bar", "name": "bar", "files": [{"name": "go-bar/bar.go", "src": "\n".join(bar) + "\n"}]})
+    if qual == "lastelem":
+        pkgs.append({"path": "m/gobar", "name": "bar", "files": [{"name": "gobar/bar.go", "src": "\n".join(bar) + "\n"}]})
     if qual == "selfname":
         pkgs.append({"path": "m/e", "name": "e", "files": [{"name": "e/e.go", "src": "package e\n\ntype E struct{}\n"}]})
     ufiles = [{"name": "u/u.go", "src": "\n".join(u) + "\n"}]
